@@ -12,11 +12,14 @@ EXTENDS Naturals, Sequences, FiniteSets, TLC, Json, IOUtils
 CONSTANTS Export
 Cases == [kind : {"call", "push"}, method : {"echo", "fail", "missing"}, codec : {"j", "p"},
           reqmeta : {"none", "one", "realip", "repeated"}, replymeta : {"none", "one", "two"},
-          body : {"short", "empty", "special", "big"}, failure : {"none", "downbefore", "cutduring"}]
+          body : {"short", "empty", "special", "big", "nil"}, failure : {"none", "downbefore", "writefail", "cutduring"}]
 OK(c) == /\ (c.kind = "push" => c.method # "fail" /\ c.replymeta = "none" /\ c.failure # "cutduring")
          /\ (c.method = "missing" => c.replymeta = "none" /\ c.failure = "none")
          /\ (c.failure # "none" => c.method = "echo" /\ c.body = "short" /\ c.replymeta = "none")
          /\ (c.codec = "p" => c.method # "fail")
+         \* "nil": no argument at all (a zero-length body on the wire), sent after non-empty proxied exchanges
+         /\ (c.body = "nil" => c.replymeta = "none")
+         \* "writefail": the proxy's write of the forwarded message fails (reset / broken pipe) while the connection still looks healthy
 Expect(c) == IF c.failure # "none" THEN "badgateway" ELSE "same"
 VARIABLES c, done
 vars == <<c, done>>
